@@ -12,6 +12,10 @@ instances, `=` meaning equality of bit patterns:
 * **L3 `0.0 / (double) n = 0.0` for an integer `n > 0`** — `n = L` (`p[x] /= L` of `Markov0`, `p0[x] /= L` of `Markov1`);
 * **L4 `(x / 2^32 < 0.0 / norm) = false`** — `x / 2^32` = the value of `esl_random()`, `norm` = the sum of the vector.
 
+A fifth fact is needed only by the "never `esl_fatal`" theorems (`MarkovRat.lean`, proved over ℚ), not by the support theorems:
+* **L5 `norm / norm = 1.0`** for the finite positive sum `norm` of the vector (the scan's last running sum IS `norm`: same numbers
+  added in the same order), and **`x / 2^32 < 1.0`**.
+
 `laws*` below replay the numeric pipeline of one call on a COPY of the generator state (the state is not advanced) and
 evaluate every one of these instances on the values the call is about to encounter — L1 on every running sum, not only
 the returning one. The harness does the same in C doubles; both report `checked` / `bad`, the counts are compared and
@@ -27,11 +31,13 @@ def LawCount.chk (c : LawCount) (ok : Bool) : LawCount := ⟨c.checked + 1, if o
 
 def fbitsEq (a b : Float) : Bool := a.toBits == b.toBits
 
-/-- the instances one `esl_rnd_DChoose(r, p, N)` with `esl_random() = x / 2^32` relies on: L4 once, L1 at every running sum -/
+/-- the instances one `esl_rnd_DChoose(r, p, N)` with `esl_random() = x / 2^32` relies on: L4 and L5 once, L1 at every running sum -/
 def lawsDChoose (c : LawCount) (x : Nat) (p : List Float) : LawCount :=
   let norm := p.foldl (· + ·) 0.0
   let u := Float.ofNat x / Float.ofNat 4294967296
   let c := c.chk (!(u < 0.0 / norm))
+  let c := c.chk (u < 1.0)                                                                  -- L5
+  let c := if 0.0 < norm && norm.isFinite then c.chk (fbitsEq (norm / norm) 1.0) else c     -- L5
   (p.foldl (fun (st : LawCount × Float) q => (st.1.chk (fbitsEq (st.2 + 0.0) st.2), st.2 + q)) (c, 0.0)).1
 
 /-- `n` successive `DChoose(r, p)` (the loop of `esl_rsq_IID` …), stopping where the model's `iidLoop` stops -/
